@@ -529,7 +529,13 @@ class C06(Property):
         kf = float('%.4g' % (10 ** rng.uniform(-3, 4)))
         kb = float('%.4g' % (10 ** rng.uniform(-3, 3)))
         major = float('%.4g' % (10 ** rng.uniform(-2, 1)))
-        minor = float('%.4g' % (major * (rng.uniform(0.05, 0.9) if rng.random() < 0.8 else 1 - 10 ** rng.uniform(-4, -1.3))))
+        r = rng.random()
+        if r < 0.65:
+            minor = float('%.4g' % (major * rng.uniform(0.05, 0.9)))
+        elif r < 0.8:
+            minor = float('%.4g' % (major * (1 - 10 ** rng.uniform(-4, -1.3))))
+        else:                                                   # NEARLY equimolar: relative difference 1e-12 ... 1e-3 (full precision)
+            minor = major * (1 - 10 ** rng.uniform(-12, -3))
         if which in ('equal', 'equal_rev'):                     # [A]0 = [B]0: binary_irrev is 0/0 there, the solution is 1/(1/c0 + k t)
             minor = major
         prod = rng.choice([0.0, 0.0, float('%.3g' % (10 ** rng.uniform(-3, 0)))])
@@ -1376,9 +1382,10 @@ class C06(Property):
                 f = self._accurate(case, k, t, got[k], want[k], refmax)
                 if f:
                     return f + ' [%s]' % text
-            tolP = ACC_F * (atol + rtol * abs(want['P'])) + ACC_G * rtol * refmax + 1e-9 * refmax
+            drel = (case['major'] - case['minor']) / case['major']
+            tolP = ACC_F * (atol + rtol * abs(want['P'])) + ACC_G * rtol * refmax + (1e-9 if drel >= 0.1 else 1e-10 + 4 * 2.3e-16 / max(drel, 1e-300)) * refmax
             cf = None
-            if which == 'irrev' and lib_ok:
+            if which == 'irrev' and drel > 0:
                 cf = ('binary_irrev', 'P', integrated.binary_irrev(float(t), case['kf'], case['prod'], case['major'], case['minor']))
             elif which in ('rev', 'equal_rev'):
                 cf = ('binary_rev', 'P', integrated.binary_rev(float(t), case['kf'], case['kb'], case['prod'], case['major'], case['minor']))
@@ -1400,12 +1407,19 @@ class C06(Property):
         import math as _math
         from chempy.kinetics import integrated
         which = case['which']
-        if which == 'irrev' and not case['minor'] <= 0.9 * case['major']:
-            return None                                            # library form ill-conditioned ([B]0/[A]0 -> 1), own reference only
         kf, kb, major, minor, prod = case['kf'], case['kb'], case['major'], case['minor'], case['prod']
+        # binary_irrev = prod + major (1 - e)/(major/minor - e) cancels for [B]0/[A]0 -> 1: its own rounding error is about
+        # eps/drel * max (measured on /repo, 8000 values: <= 0.35 eps/drel); accepted 1e-10 + 4 eps/drel — for drel >= 1e-7 that is well
+        # below the concentration difference drel*major, so a shortcut that treats nearly equal as equal is seen (error ~ drel*major/2)
+        drel = (major - minor) / major if which == 'irrev' else 1.0
+        if which == 'irrev' and drel <= 0:
+            return None
+        ctol = 1e-9 if drel >= 0.1 else 1e-10 + 4 * 2.3e-16 / drel
         slow = kf * (major - minor) if which == 'irrev' else kf * major + (kb if which in ('rev', 'equal_rev') else 0)
-        for i in range(11):
-            t = float('%.4g' % (10 ** (-3 + 0.7 * i) / slow))
+        grid = [float('%.4g' % (10 ** (-3 + 0.7 * i) / slow)) for i in range(11)]
+        if drel < 0.1:                                           # long times on the scale of the reactants: kf*major*t = 1e-3 ... 1e3
+            grid += [float('%.4g' % (10 ** (-3 + 0.6 * i) / (kf * major))) for i in range(11)]
+        for t in grid:
             want = self._bimol_exact(case, t, A, B)
             refmax = max(want.values())
             for be_name, be in (('numpy', None), ('math', _math)):
@@ -1423,7 +1437,10 @@ class C06(Property):
                             '(exact value %r)' % (be_name, type(e).__name__, e, t, kf, major, minor, prod, want['P']))
                 val = float(val)
                 self.meas.setdefault('cf', []).append(abs(val - want[key]) / refmax if _math.isfinite(val) else _math.inf)
-                if not abs(val - want[key]) <= 1e-9 * refmax:
+                if key == 'P' and which in ('irrev', 'equal') and val > prod + min(major, minor) + ctol * refmax:
+                    return ('chempy.kinetics.integrated.%s (%s backend) = %r at t=%g exceeds what the minor reactant can supply, '
+                            'prod + min([A]0, [B]0) = %r (kf=%g, major=%r, minor=%r)' % (name, be_name, val, t, prod + min(major, minor), kf, major, minor))
+                if not abs(val - want[key]) <= ctol * refmax:
                     return ('chempy.kinetics.integrated.%s (%s backend) = %r at t=%g, kf=%g, kb=%g, major=%g, minor=%g, prod=%g; '
                             'exact %s = %r' % (name, be_name, val, t, kf, kb, major, minor, prod, key, want[key]))
         return None
